@@ -371,8 +371,8 @@ def propagateInline (v : Variant) (sel : BackendSel) (ctx : NodeCtx) (gnames : L
 def mergeOne (v : Variant) (vals : List (String × Payload)) (o : OutVar) : OutVar × Bool :=
   match o.type, o.value, dictGet vals o.key with
   | some t, none, some p =>
-    let pv := PropValue.new t p
-    if check v pv then ({ o with value := some pv }, false) else (o, true)
+    if check v (PropValue.new t p) then ({ o with value := some (PropValue.new t p) }, false)
+    else (o, true)
   | _, _, _ => (o, false)
 
 def merge (v : Variant) (vals : List (String × Payload)) (outs : List OutVar) :
@@ -400,8 +400,10 @@ def construct (v : Variant) (sel : BackendSel) (k : Kind) (ctx : NodeCtx) (b : B
 
 /-! ## conformance (the specification `check` is measured against) -/
 
-/-- Array dtype `dt` *is* element type `e`: equal, or an object array standing for strings. -/
-def dtConf (dt e : DT) : Prop := dt = e ∨ (dt = .object ∧ e = .str)
+/-- Array dtype `dt` *is* element type `e`: equal as numpy dtypes (the platform alias classes
+    `longlong`/`ulonglong` compare equal to `int64`/`uint64`), or an object array standing for
+    strings. -/
+def dtConf (dt e : DT) : Prop := dt.norm = e.norm ∨ (dt = .object ∧ e = .str)
 
 def dimConf (n : Nat) : Dim → Prop
   | .const m => n = m
